@@ -104,7 +104,14 @@ def client_reads(tier, rng):
             with C.Patches(clock, line):
                 kind, client, dec = C.make_client(name, cfg)
                 t = C.Transaction(name, kind, client, dec, clock, line, rng)
-                x = t.run(rng.choice([1, 2, 17, 247]), [rng.choice(["own", "ownExc"])], exact=1)
+                uid = rng.choice([1, 2, 17, 247])
+                hist = []
+                if j % 3 == 2:
+                    # history: the unit did not answer the previous call; the prediction for the next reply is the same
+                    t.run(uid, ["nothing"])
+                    hist = [["nothing"]]
+                x = t.run(uid, [rng.choice(["own", "ownExc"])], exact=1)
+                x["history"] = hist
                 try:
                     client.close()
                 except Exception:
@@ -112,6 +119,20 @@ def client_reads(tier, rng):
             traces.append({"id": "e%d" % k, "kind": kind0, "client": name, "cfg": cfg, "txns": [x]})
             k += 1
     return traces
+
+
+def after_silence_exception(known, x):
+    """the open finding `one read of the predicted normal size after a unit stayed silent`: exactly that observation, nothing wider -
+    the previous call to the unit went unanswered, the reply is an exception reply, and the client issued ONE read asking for the
+    length of the normal reply frame (so it waited for the difference)"""
+    for fid, f in known.items():
+        sig = f.get("signature", {})
+        if sig.get("shape") != "one-read-of-normal-size-for-exception-after-silence":
+            continue
+        if x.get("history") == [["nothing"]] and x["script"] == ["ownExc"] and len(x["reads"]) == 1 and \
+                x["reads"][0]["asked"] == x.get("normal_len") and x["reads"][0]["got"] < x["reads"][0]["asked"]:
+            return fid
+    return None
 
 
 def run(prop, tier):
@@ -151,6 +172,8 @@ def run(prop, tier):
         if v["status"] == "OK":
             ok.append(t)
             rep.distinct((t["client"], x["fc"], x["script"][0], tuple(r["asked"] for r in x["reads"])))
+        elif "ReadsExactlyFrame" in v["clauses"] and x["result"]["kind"] == "reply" and after_silence_exception(known, x):
+            rep.known(after_silence_exception(known, x))
         elif "ReadsExactlyFrame" in v["clauses"] or x["result"]["kind"] != "reply":
             rep.violation("%s-reads" % t["client"], {"property": prop, "engine": "ClientTrace", "tag": t["client"], "trace": t, "verdict": v})
     # self-test
